@@ -18,8 +18,9 @@ TRUSTED = [
     "that toposort_all(_make_prec_graph) enumerates exactly those is C19",
 ]
 ASSUMPTIONS = ["coherent cost vectors; leaf syntenies non-empty with distinct families; prescribed root order is a common supersequence"]
-OPEN = ["C02_ext_statement / C02_base_statement (optimality of the label DP) are stated, not proved; "
-        "proved: C02_rank_partial (result = arg-min of the evaluated cost over decoded table solutions), C02_empty"]
+OPEN = [
+    'adequacy of the oracle Spec.optimum w.r.t. every valid sequence-labelled solution (Properties/C02Spec.lean when present); proved: validity, finiteness, cost <= Spec.optimum, optimality and completeness among all admissible mask labellings (C02Dp.lean)',
+]
 
 CORPUS = [
     # fixed: F-SPFS-SLOSS0
